@@ -1,6 +1,7 @@
 package main
 
 import (
+	"strconv"
 	"encoding/json"
 	"flag"
 	"fmt"
@@ -67,6 +68,11 @@ func cmdCheck(args []string) int {
 	timeout := 10 * time.Second
 	if *tier == "thorough" {
 		timeout = 60 * time.Second
+	}
+	// GOVC_TIMEOUT=<seconds>: per-obligation solver budget (the mutation lanes run several checks
+	// side by side without retries and need a larger budget than an otherwise idle machine)
+	if v, err := strconv.Atoi(os.Getenv("GOVC_TIMEOUT")); err == nil && v > 0 {
+		timeout = time.Duration(v) * time.Second
 	}
 
 	var runs []*FuncRun
